@@ -618,8 +618,7 @@ class Engine:
 
     def _devirtualise(self, st, frame, ci):
         """(function, substitution) for a call of a crate trait's method on a type parameter whose instance this frame
-        knows; the type's own impl of the method, else the trait's provided method with Self := that type; with a single
-        implementor in the crate that one is taken whatever the frame knows"""
+        knows; the type's own impl of the method, else the trait's provided method with Self := that type"""
         tr, name = ci.get('trait'), ci['name']
         g = ci.get('gargs') or []
         selfty = self._subst_ty(st, frame, g[0]) if g else None
@@ -634,12 +633,8 @@ class Engine:
                 return mine[0], None
             if not mine and len(default) == 1:
                 return default[0], {'Self': selfty}
-        if len(impls) == 1 and not default:
-            return impls[0], None
-        implementors = set(f.get('impl_adt') for f in self.F.raw['fns'] if f.get('impl_trait') == tr)
-        if len(implementors) == 1 and len(default) == 1 and not impls:
-            a = self.F.adts.get(list(implementors)[0])
-            return default[0], {'Self': {'k': 'adt', 'path': a['path'], 'local': True, 'args': [], 'str': a['path']}} if a else None
+        # (no "the only implementor" shortcut: a generic function analysed on its own stays generic, whatever the
+        # feature configuration leaves as implementors)
         return None, None
 
     def _bundle_fields(self, ty):
